@@ -36,6 +36,8 @@ def run(prog, R, tier="quick", only_rule=None):
     c12c(prog, R)
     c12d(prog, R)
     c12e(prog, R)
+    from rules.props import c11
+    c11.c11c(prog, R, rid="C12.f")
 
 
 def arith_skeleton(body, drop_methods=()):
